@@ -16,7 +16,7 @@ vars == <<t, d>>
 Base(ln, w, lb, fold, rem, q) ==
     [ln |-> ln, width |-> w, degs |-> [i \in 1..w |-> IF i % 2 = 0 /\ lb >= 1 THEN 2 ELSE 1], cycles |-> <<4>>,
      pcol |-> [i \in 1..w |-> 0], k |-> 1, nasserts |-> 1, q |-> q, lb |-> lb, grind |-> 0,
-     fold |-> fold, rem |-> rem, ext |-> 1, bits |-> 64]
+     fold |-> fold, rem |-> rem, ext |-> 1, bits |-> 64, auxd |-> <<>>, auxr |-> 0, lag |-> 0, nauxa |-> 0]
 
 \* a base statement whose highest-degree constraint also carries a periodic factor (degree 3, one cycle => blowup 4)
 BaseP == [Base(4, 2, 2, 2, 3, 10) EXCEPT !.degs = <<1, 3>>, !.pcol = <<0, 1>>, !.cycles = <<8>>]
@@ -25,9 +25,20 @@ BaseP == [Base(4, 2, 2, 2, 3, 10) EXCEPT !.degs = <<1, 3>>, !.pcol = <<0, 1>>, !
 \* are reached by no enforced transition, so only the boundary constraints protect them
 BaseA == [Base(4, 3, 2, 2, 3, 10) EXCEPT !.k = 4, !.nasserts = 6]
 
-Init == /\ t \in {Base(3, 1, 1, 2, 0, 3), Base(4, 2, 2, 4, 7, 8), Base(5, 3, 3, 2, 3, 20), Base(6, 8, 3, 8, 31, 12), BaseP, BaseA}
+\* base statements with an auxiliary segment: running sum and product columns with all auxiliary assertion templates; the
+\* smallest trace with a Lagrange kernel column; fewer random elements than columns, product column first, two exemptions
+BaseX1 == [Base(4, 2, 2, 2, 3, 10) EXCEPT !.auxd = <<1, 2>>, !.auxr = 2, !.nauxa = 3]
+BaseX2 == [Base(3, 1, 1, 2, 0, 3) EXCEPT !.auxd = <<1>>, !.auxr = 1, !.lag = 1, !.nauxa = 2]
+BaseX3 == [Base(5, 3, 3, 2, 3, 20) EXCEPT !.auxd = <<2, 1, 1>>, !.auxr = 1, !.lag = 1, !.nauxa = 3, !.k = 2]
+
+Init == /\ t \in {Base(3, 1, 1, 2, 0, 3), Base(4, 2, 2, 4, 7, 8), Base(5, 3, 3, 2, 3, 20), Base(6, 8, 3, 8, 31, 12), BaseP, BaseA,
+                  BaseX1, BaseX2, BaseX3}
         /\ Admissible(t) /\ d = 0
 
+\* change the auxiliary columns, keeping the other auxiliary parameters meaningful for the new columns
+WithAux(s, x) == LET s1 == [s EXCEPT !.auxd = x]
+                 IN  IF Len(x) = 0 THEN [s1 EXCEPT !.auxr = 0, !.lag = 0, !.nauxa = 0]
+                     ELSE [s1 EXCEPT !.nauxa = Max2(1, Min2(s.nauxa, MaxAuxAsserts(s1)))]
 DegsFor(w, lb, v) == [i \in 1..w |-> IF i = w THEN Min2(v, 2 ^ lb + 1) ELSE 1 + (i % 2)]
 Variants(s) ==
     {[s EXCEPT !.ln = x] : x \in 3..MaxLn}
@@ -44,6 +55,10 @@ Variants(s) ==
     \cup {[s EXCEPT !.rem = x] : x \in {0, 1, 3, 7, 15, 31, 63, 127, 255}}
     \cup {[s EXCEPT !.ext = x] : x \in 1..3}
     \cup {[s EXCEPT !.bits = x] : x \in {62, 64, 128}}
+    \cup {WithAux(s, x) : x \in {<<>>, <<1>>, <<2>>, <<1, 2>>, <<2, 1>>, <<1, 1, 2, 2, 1>>}}
+    \cup {[s EXCEPT !.auxr = x] : x \in {0, 1, 2, 5}}
+    \cup {[s EXCEPT !.lag = x] : x \in {0, 1}}
+    \cup {[s EXCEPT !.nauxa = x] : x \in 1..3}
 
 Next == /\ d < Depth
         /\ \E s \in Variants(t) : s # t /\ Admissible(s) /\ t' = s
@@ -62,9 +77,18 @@ CorruptSteps == ({0, 1, N(t) \div 2, N(t) - t.k - 1, N(t) - t.k, N(t) - t.k + 1,
                  \cup {LastStepOf(Asserts(t)[x]) : x \in 1..t.nasserts})
                 \cap (0..(N(t) - 1))
 Corruptions  == IF IOEnv.ST_SOUND = "1"
-                THEN SetToSeq({[c |-> c, i |-> i, violated |-> Violated(t, c, i)] : c \in CorruptCols, i \in CorruptSteps})
+                THEN SetToSeq({[c |-> c, i |-> i, violated |-> ViolatedMain(t, c, i)] : c \in CorruptCols, i \in CorruptSteps})
                 ELSE <<>>
+AuxCorruptCols == IF AuxW(t) = 0 THEN {} ELSE {0, AuxW(t) - 1} \cup {AuxAsserts(t)[x].col : x \in 1..t.nauxa}
+AuxCorruptSteps == ({0, 1, N(t) \div 2, N(t) - t.k - 1, N(t) - t.k, N(t) - t.k + 1, N(t) - 1}
+                    \cup UNION {{a.first, a.first + a.stride} : a \in {AuxAsserts(t)[x] : x \in 1..t.nauxa}}
+                    \cup {LastStepOf(AuxAsserts(t)[x]) : x \in 1..t.nauxa})
+                   \cap (0..(N(t) - 1))
+AuxCorruptions == IF IOEnv.ST_SOUND = "1"
+                  THEN SetToSeq({[c |-> c, i |-> i, violated |-> ViolatedAux(t, c, i)] : c \in AuxCorruptCols, i \in AuxCorruptSteps})
+                  ELSE <<>>
 Emit == PrintT(ToJson([t |-> t, asserts |-> Asserts(t), corruptions |-> Corruptions,
+                        auxasserts |-> AuxAsserts(t), auxcorruptions |-> AuxCorruptions,
                         ccols |-> NumCompositionCols(Effective(t)), layers |-> NumFriLayers(t)]))
 View == t
 =============================================================================
